@@ -20,7 +20,7 @@ import signatures
 
 # profiles of the harness that matter for each property
 PROFILES = {
-    "C01": ["mixed", "time", "maxfails", "cancel", "loss", "happy", "timeretract"],
+    "C01": ["mixed", "time", "maxfails", "cancel", "loss", "happy", "timeretract", "bigbody"],
     "C02": ["mixed", "open", "variants", "mn", "retract", "loss", "timeretract", "retract2"],
     "C03": ["mixed", "open", "maxfails", "happy", "cancel"],
     "C04": ["variants", "mixed", "cancel", "retract"],
@@ -28,7 +28,7 @@ PROFILES = {
     "C06": ["retract", "loss", "mixed", "variants"],
     "C07": ["loss", "mn", "mixed", "maxfails"],
     "C08": ["cancel", "retract", "mixed", "open", "mn", "retract2"],
-    "C09": ["mixed", "retract", "cancel", "loss", "maxfails", "open", "stream", "mn", "time", "variants", "timeretract", "retract2", "variants2"],
+    "C09": ["mixed", "retract", "cancel", "loss", "maxfails", "open", "stream", "mn", "time", "variants", "timeretract", "retract2", "variants2", "bigbody"],
     "C13": ["open", "stream", "maxfails", "mixed", "cancel"],
     "C14": ["maxfails", "mixed"],
 }
